@@ -318,3 +318,57 @@ def _use_kind(node: ast.Attribute) -> str:
     if isinstance(p, ast.Call) and node in p.args and call_name(p) in ("len", "dict", "list", "sorted", "set", "tuple"):
         return "read"
     return "alias"
+
+
+# ---------------------------------------------------------------------------
+# C11: an exception raised while an element is being computed reaches the caller
+# ---------------------------------------------------------------------------
+
+# handlers that absorb an exception (do not re-raise on every path): (module, function qualname, caught types) -> reason
+ABSORBING_HANDLERS = {
+    ("algorithm_parsing", "_EvalType.from_condition", "KeyError"): "compile-time lookup of a condition name; no evaluation happens inside the try",
+    ("algorithm_parsing", "_safe_divide", "TypeError"): "fallback of the element division: the same quotient is recomputed as numerator * (1 / denominator); "
+                                                       "the try body is one arithmetic operation on two already computed values",
+    ("linalg", "direct_greens_function", "ImportError"): "optional dependency (mumps); the fallback factorises the same matrix with scipy",
+}
+
+
+def rule_exceptions_propagate(rep: Report, repo: Repo):
+    """Every `try` of the evaluation modules: each handler either re-raises on all of its paths (bare `raise`, or
+    `raise X from e`) or is one of the listed absorbing handlers.  A handler that absorbs an exception on the evaluation
+    path returns a value computed from a partial evaluation, which is then cached."""
+    from .sem import outcomes
+    R = "E3.propagate"
+    n = 0
+    for mod in ("series", "algorithm_parsing", "block_diagonalization", "linalg", "kpm", "second_quantization"):
+        tree = repo.trees[mod]
+        for t in [x for x in ast.walk(tree) if isinstance(x, ast.Try)]:
+            fn = t
+            parts = []
+            while fn is not None:
+                if isinstance(fn, (ast.FunctionDef, ast.ClassDef)):
+                    parts.append(fn.name)
+                fn = getattr(fn, "_parent", None)
+            q = ".".join(reversed(parts)) or "<module>"
+            for h in t.handlers:
+                n += 1
+                types = norm(h.type) if h.type is not None else "<bare>"
+                outs = outcomes(h.body, None, env={}, expand=False)
+                reraises = bool(outs) and all(o.kind == "raise" for o in outs)
+                inst = f"{mod}::{q} handler `except {types}`"
+                where = f"pymablock/{mod}.py:{h.lineno}"
+                if reraises:
+                    rep.ok(R, inst + " re-raises on every path", "", where)
+                elif (mod, q, types) in ABSORBING_HANDLERS:
+                    rep.ok(R, inst + " (listed absorbing handler)", ABSORBING_HANDLERS[(mod, q, types)], where)
+                else:
+                    kinds = sorted({o.kind for o in outs})
+                    rep.fail(R, f"{mod}::{q} handler `except {types}` absorbs the exception (paths end with {kinds})",
+                             "an exception raised while an element is being computed (Hamiltonian term, Sylvester solver, multiplication) must "
+                             "reach the caller; here the computation goes on with a partial value, which the series then caches", where)
+            if t.finalbody:
+                for s in t.finalbody:
+                    for x in ast.walk(s):
+                        if isinstance(x, (ast.Return, ast.Break, ast.Continue)):
+                            rep.fail(R, f"{mod}::{q} `finally` block leaves with `{norm(x)[:30]}`", "this discards an exception in flight", f"pymablock/{mod}.py:{x.lineno}")
+    rep.floor(R, "exception handlers inspected", n, 4)
